@@ -146,7 +146,11 @@ func (c *Conn) Read(b []byte) (n int, err error) {
 	// maintain an intermediate read buffer. If this buffer becomes
 	// depleted, then we read the next record, and feed it into the
 	// buffer. Otherwise, we read directly from the buffer.
-	if c.readBuf.Len() == 0 {
+	//
+	// A zero-length message carries no bytes for the stream, so we keep
+	// reading records until the buffer holds data. Reading from the empty
+	// buffer instead would report io.EOF on a healthy connection.
+	for c.readBuf.Len() == 0 {
 		plaintext, err := c.noise.ReadMessage(c.conn)
 		if err != nil {
 			return 0, err
